@@ -32,6 +32,7 @@ import (
 	"github.com/bufbuild/buf/private/bufpkg/bufparse"
 	"github.com/google/uuid"
 	"google.golang.org/protobuf/proto"
+	"google.golang.org/protobuf/reflect/protoreflect"
 	"google.golang.org/protobuf/types/descriptorpb"
 )
 
@@ -261,7 +262,40 @@ func vr18Options() []vr18Option {
 				base := strings.TrimSuffix(spec.path[strings.LastIndex(spec.path, "/")+1:], ".proto")
 				return strings.ToUpper(base[:1]) + base[1:] + "Proto"
 			}},
+		// documented defaults: every package element capitalized, joined by ".", "\\" or "::"; the Objective-C prefix is
+		// the initials of the unversioned package elements padded with X to three letters
+		{name: "csharp_namespace", option: bufconfig.FileOptionCsharpNamespace, other: bufconfig.FileOptionJavaPackage, tag: 37, values: []any{"Ov.One", "Ov.Two"},
+			modify: ModifyCsharpNamespace, get: (*descriptorpb.FileOptions).GetCsharpNamespace,
+			set: func(o *descriptorpb.FileOptions, s string) { o.CsharpNamespace = proto.String(s) },
+			def: func(spec vr18FileSpec, _, _ string) string { return strings.Join(vr18Capitalized(spec.pkg), ".") }},
+		{name: "objc_class_prefix", option: bufconfig.FileOptionObjcClassPrefix, other: bufconfig.FileOptionJavaPackage, tag: 36, values: []any{"OVA", "OVB"},
+			modify: ModifyObjcClassPrefix, get: (*descriptorpb.FileOptions).GetObjcClassPrefix,
+			set: func(o *descriptorpb.FileOptions, s string) { o.ObjcClassPrefix = proto.String(s) },
+			def: func(spec vr18FileSpec, _, _ string) string {
+				parts := vr18Capitalized(spec.pkg)
+				return parts[0][:1] + parts[1][:1] + "X" // acme.<x>.v1 -> A<X>X
+			}},
+		{name: "php_namespace", option: bufconfig.FileOptionPhpNamespace, other: bufconfig.FileOptionJavaPackage, tag: 41, values: []any{`Ov\\One`, `Ov\\Two`},
+			modify: ModifyPhpNamespace, get: (*descriptorpb.FileOptions).GetPhpNamespace,
+			set: func(o *descriptorpb.FileOptions, s string) { o.PhpNamespace = proto.String(s) },
+			def: func(spec vr18FileSpec, _, _ string) string { return strings.Join(vr18Capitalized(spec.pkg), `\`) }},
+		{name: "php_metadata_namespace", option: bufconfig.FileOptionPhpMetadataNamespace, other: bufconfig.FileOptionJavaPackage, tag: 44, values: []any{`Ov\\Meta`, `Ov\\Meta2`},
+			modify: ModifyPhpMetadataNamespace, get: (*descriptorpb.FileOptions).GetPhpMetadataNamespace,
+			set: func(o *descriptorpb.FileOptions, s string) { o.PhpMetadataNamespace = proto.String(s) },
+			def: func(spec vr18FileSpec, _, _ string) string { return strings.Join(vr18Capitalized(spec.pkg), `\`) + `\GPBMetadata` }},
+		{name: "ruby_package", option: bufconfig.FileOptionRubyPackage, other: bufconfig.FileOptionJavaPackage, tag: 45, values: []any{"Ov::One", "Ov::Two"},
+			modify: ModifyRubyPackage, get: (*descriptorpb.FileOptions).GetRubyPackage,
+			set: func(o *descriptorpb.FileOptions, s string) { o.RubyPackage = proto.String(s) },
+			def: func(spec vr18FileSpec, _, _ string) string { return strings.Join(vr18Capitalized(spec.pkg), "::") }},
 	}
+}
+
+func vr18Capitalized(pkg string) []string {
+	var out []string
+	for _, part := range strings.Split(pkg, ".") {
+		out = append(out, strings.ToUpper(part[:1])+part[1:])
+	}
+	return out
 }
 
 // the value managed mode must put into the option of this file; "" = leave the file alone.
@@ -738,6 +772,44 @@ func TestVerifReplayC18(t *testing.T) {
 		tried += vr18JsType(v)
 	case "modifyJsType", "ModifyJsType":
 		tried += vr18JsType(v)
+	case "modifyCcEnableArenas", "modifyJavaMultipleFiles", "modifyJavaStringCheckUtf8", "modifyOptimizeFor", "modifyJavaPackage", "modifyGoPackage", "modifyJavaOuterClass",
+		"modifyCsharpNamespace", "modifyObjcClassPrefix", "modifyPhpNamespace", "modifyPhpMetadataNamespace", "modifyRubyPackage":
+		key := strings.ToLower(strings.TrimPrefix(fn, "modify"))
+		tried += vr18Single(v, func(o vr18Option) bool {
+			return strings.HasPrefix(strings.ReplaceAll(o.name, "_", ""), key)
+		})
+	case "isPathForFileOption", "removeLocationsFromSourceCodeInfo", "Sweep", "Mark", "getPathType", "getPathKey", "file-options-field-number]",
+		"insert", "registerDescendant", "indicesWithoutDescendant":
+		// the mark-and-sweep of source locations (package internal) is observed through the rewrites that drive it
+		tried += vr18Single(v, all)
+		tried += vr18JsType(v)
+	case "descriptor-proto-number]":
+		// table obligations: every source-location path constant must be [FileDescriptorProto.options, FileOptions.<option>]
+		// with the field numbers of descriptor.proto (taken here from the generated descriptor, not from the constants)
+		optionsNumber := int32((&descriptorpb.FileDescriptorProto{}).ProtoReflect().Descriptor().Fields().ByName("options").Number())
+		fields := (&descriptorpb.FileOptions{}).ProtoReflect().Descriptor().Fields()
+		for _, c := range []struct {
+			name  string
+			path  []int32
+			field string
+		}{
+			{"ccEnableArenasPath", ccEnableArenasPath, "cc_enable_arenas"}, {"csharpNamespacePath", csharpNamespacePath, "csharp_namespace"},
+			{"goPackagePath", goPackagePath, "go_package"}, {"javaMultipleFilesPath", javaMultipleFilesPath, "java_multiple_files"},
+			{"javaOuterClassnamePath", javaOuterClassnamePath, "java_outer_classname"}, {"javaPackagePath", javaPackagePath, "java_package"},
+			{"javaStringCheckUtf8Path", javaStringCheckUtf8Path, "java_string_check_utf8"}, {"objcClassPrefixPath", objcClassPrefixPath, "objc_class_prefix"},
+			{"optimizeForPath", optimizeForPath, "optimize_for"}, {"phpMetadataNamespacePath", phpMetadataNamespacePath, "php_metadata_namespace"},
+			{"phpNamespacePath", phpNamespacePath, "php_namespace"}, {"rubyPackagePath", rubyPackagePath, "ruby_package"},
+		} {
+			if obl := os.Getenv("VERIF_REPLAY_OBLIGATION"); !strings.Contains(obl, "n_"+c.name+".") && strings.Contains(obl, "n_") {
+				continue
+			}
+			tried++
+			want := []int32{optionsNumber, int32(fields.ByName(protoreflect.Name(c.field)).Number())}
+			if fmt.Sprint(c.path) != fmt.Sprint(want) {
+				v.report("source-location path constant %s = %v, but descriptor.proto numbers FileDescriptorProto.options / FileOptions.%s as %v: rewriting %s would sweep the source info of another option", c.name, c.path, c.field, want, c.field)
+			}
+		}
+		tried += vr18Single(v, all)
 	default:
 		fmt.Printf("VERIF-REPLAY no harness for %q\n", fn)
 		return
